@@ -1,8 +1,8 @@
 (* C06 - genhkl_unique lists one reflection per Laue family, sorted by true sintl (partial: see DESIGN.md).
    ast_laue_sysabs: AST-translated from laue.py (equal to the tools version, C14); segm_laue / segm_tools: literals of genhkl_base;
    all_settings: the 237 tables; model/Traverse.v: hand model of the traversal, tied by in-Coq evaluation against the implementation. *)
-From Coq Require Import ZArith List Bool String.
-From XV Require Import SGroup HklModel Traverse Tab_segm Ast_laue Tab_sg_all P05 P05_complete P06_fd P06_fd_main P05_all P05_nodup.
+From Coq Require Import ZArith List Bool String Sorted Permutation.
+From XV Require Import SGroup HklModel Traverse HklSort Tab_segm Ast_laue Tab_sg_all P05 P05_complete P06_fd P06_fd_main P05_all P05_nodup P06_sort.
 Open Scope Z_scope.
 
 (* on the traversal's asymmetric unit (box [-7,7]^3, all 237 settings): sysabs = 0  <->  no operation (R,t) has hR = h with h.t non-integer *)
@@ -83,3 +83,19 @@ Theorem C06_representatives_listed_once : forall s, In s all_settings -> forall 
   forall G Tmin Tmax Tterm allowed fuel reps, all_segments G Tmin Tmax Tterm allowed fuel segs = Some reps -> NoDup reps.
 Proof. exact reps_nodup. Qed.
 Print Assumptions C06_representatives_listed_once.
+
+(* ordering: model/HklSort.v sorts the rows on the integer sort key q(h) (sin(theta)/lambda = sqrt(q/S)/2 is increasing in q).  Every earlier row has a key <= every
+   later row, nothing is lost, added or repeated by the sorting step, and the correspondence (keyseq_ok, evaluated in Coq on every run against the order in which the
+   implementation returned its rows) implies that the implementation's rows are in non-decreasing order of q. *)
+Theorem C06_rows_sorted_by_sintl : forall G l, StronglySorted (qle G) (sortq G l).
+Proof. exact sortq_strongly. Qed.
+Print Assumptions C06_rows_sorted_by_sintl.
+Theorem C06_sorting_is_a_permutation : forall G l, Permutation (sortq G l) l.
+Proof. exact sortq_perm. Qed.
+Print Assumptions C06_sorting_is_a_permutation.
+Theorem C06_sorting_keeps_rows_distinct : forall G l, NoDup l -> NoDup (sortq G l).
+Proof. exact sortq_nodup. Qed.
+Print Assumptions C06_sorting_keeps_rows_distinct.
+Theorem C06_same_key_sequence_means_sorted : forall G m e, keyseq_ok G m e = true -> Sorted Z.le (map (qform G) e).
+Proof. exact keyseq_sorted. Qed.
+Print Assumptions C06_same_key_sequence_means_sorted.
